@@ -469,8 +469,12 @@ private:
 public:
 	// Verification only: put the generation counter `distance` steps before its maximum,
 	// so that the wrap-around can be reached without 2^32 additions.
+	// The counter only ever moves forward: a request that would move it backward is ignored.
 	void verifSetCounterBeforeMax(const unsigned int distance) {
-		currentCounter.store((std::numeric_limits<Counter>::max)() - static_cast<Counter>(distance));
+		const Counter target = (std::numeric_limits<Counter>::max)() - static_cast<Counter>(distance);
+		if(target > currentCounter.load()) {
+			currentCounter.store(target);
+		}
 	}
 
 	unsigned long long verifGetCounter() const {
